@@ -24,8 +24,9 @@ Qed.
 
 Lemma enc_dense_good d : Forall good_dense (enc_dense d) /\ NoDup (map fst (enc_dense d)).
 Proof.
-  rewrite enc_dense_eq. destruct (enc_dinfo_good (de_cols d) (map dn_info (de_nodes d))) as [G N].
-  destruct (de_hasinfo d), (de_haskv d); simpl;
+  unfold enc_dense. destruct (enc_dinfo_good (de_cols d) (map dn_info (de_nodes d))) as [G N].
+  fold (enc_dinfo (de_cols d) (map dn_info (de_nodes d))).
+  destruct (dense_omitted d), (de_hasinfo d), (de_haskv d); simpl;
     (split; [forall_good idtac|nodup_keys]).
 Qed.
 
